@@ -15,7 +15,7 @@ from vf.xmodel import build_api
 
 SHARDS = {'quick': 16, 'thorough': 64}
 TIMEOUT = {'quick': 1200, 'thorough': 7200}
-MUST_HIT = ['Snap.roundtrip', 'Snap.fixed-point', 'route.serialize_database', 'route.split-texts',
+MUST_HIT = ['EarlierObject.rechecked', 'Snap.roundtrip', 'Snap.fixed-point', 'route.serialize_database', 'route.split-texts',
             'route.persist_database', 'route.persist-split', 'route.dispatch', 'route.schema-less']
 MUST_REACH = ['xtuml/persist.py:serialize_value', 'xtuml/persist.py:serialize_instance',
               'xtuml/persist.py:serialize_association', 'xtuml/persist.py:serialize_unique_identifiers',
@@ -118,6 +118,7 @@ def check_model(ctx, rng, schema, pop, links, tmpdir):
         raise Mismatch('fixed-point/text', 'second-round text differs from the first-round text: %r'
                        % first_difference(text2, text3))
     expect_same(ctx, 'second-round', before, m3)
+    ctx.later('loaded-model', lambda: xtuml.serialize(m2), 'metamodel loaded from the serialized text')
 
     # 2. three texts in every order
     ctx.hit('route.split-texts')
